@@ -14,22 +14,26 @@ theorem solo_eq_seq (c : Call) (w : Nat) : solo 8 c.meth w = some (c.seq w) := b
   | last => simp [Call.meth, Call.seq, solo]
   | simple m => simp [Call.meth, Call.seq, solo, flagM]
   | dom m =>
-    cases h : has w stClosed <;> simp [Call.meth, Call.seq, domM, closedM, flagM, solo, closed, h, b2n]
+    cases h : has w stClosed <;> simp [Call.meth, Call.seq, dom1M, solo, closed, h, b2n]
   | ready =>
-    cases h : has w stClosed <;> simp [Call.meth, Call.seq, closedM, flagM, solo, ready, closed, h, b2n]
+    cases h : has w stClosed <;> simp [Call.meth, Call.seq, solo, ready, closed, h, b2n]
   | canRecv =>
     cases h : has w stClosed <;> cases h2 : has w stRecvClose <;>
-      simp [Call.meth, Call.seq, domM, closedM, flagM, solo, canRecv, recvClosed, closed, h, h2, b2n]
+      simp [Call.meth, Call.seq, solo, canRecv, recvClosed, closed, h, h2, b2n]
   | canStart =>
     cases h : has w stClosed <;> cases h2 : has w stChannel <;>
-      simp [Call.meth, Call.seq, closedM, flagM, solo, channelCanStart, closed, channel, channelValue, h, h2, b2n]
+      simp [Call.meth, Call.seq, solo, channelCanStart, closed, channel, channelValue, h, h2, b2n]
   | canStop =>
     cases h : has w stClosed <;> cases h2 : has w stClosing <;> cases h3 : has w stChannel <;>
-      simp [Call.meth, Call.seq, domM, closedM, flagM, solo, channelCanStop, closing, closed, channel,
+      simp [Call.meth, Call.seq, dom1M, flagM, solo, channelCanStop, closing, closed, channel,
         channelValue, h, h2, h3, Op.ret, Op.apply, b2n]
     by_cases h4 : (State.tryUnset w stChannelUpdated).2 = true
     · simp [solo, h4]
     · simp [solo, h4]
+  | origReady =>
+    cases h : has w stClosed <;> simp [Call.meth, Call.seq, closedM, flagM, solo, ready, closed, h, b2n]
+  | origTag =>
+    cases h : has w stSeen <;> simp [Call.meth, Call.seq, flagM, solo, tag, seen, h, Op.ret, Op.apply, b2n]
   | setChannel e =>
     cases e
     · cases h : has w stChannel <;> cases h2 : has w stChannelProxy <;> cases h3 : has w stChannelValue <;>
@@ -38,6 +42,7 @@ theorem solo_eq_seq (c : Call) (w : Nat) : solo 8 c.meth w = some (c.seq w) := b
     · cases h : has w stChannelValue <;>
         simp [Call.meth, Call.seq, flagM, solo, setChannel, channelValue, h, Op.ret, Op.apply, b2n]
   | tag =>
-    cases h : has w stSeen <;> simp [Call.meth, Call.seq, flagM, solo, tag, seen, h, Op.ret, Op.apply, b2n]
+    cases h : has w stSeen <;>
+      simp_all [Call.meth, Call.seq, solo, tag, seen, has, State.tryUnset, State.unset, Op.ret, Op.apply, b2n]
 
 end XMT.StateAcc
